@@ -208,3 +208,36 @@ PROPS["C12"] = {
     "trusted": ["encoding/binary.Read size rule"],
     "assumptions": ["GNSSSatInfo: only the 8-byte header is decoded (the satellite list is ignored by the library)"],
 }
+
+CODEC_TRUSTED = ["IEEE-754 binary32/binary64 operations are Flocq's (BinarySingleNaN); uintN(float64) follows amd64 (truncation through a signed 64-bit conversion)",
+                 "encoding/binary.Read semantics: big endian, field after field, fails without touching the destination when the data is short"]
+PROPS["C04"] = {
+    "level_text": "Layout: the decoder layouts (binary.Read destinations) and the fixed-layout encoders' stores are REGENERATED from measurementdata.go and proved equal to the protocol's layout table at every precision and to each other (Tie/LayoutsAgree); the precision-switched encoders (Scalar, VectorXYZ, Quaternion, RotationMatrix, LatLon) are tied by correspondence. Codec theorems (Props/C04.v): generic field-wise round trips by induction over any layout, per-kind lemmas (integers: all values; binary64: all bit patterns; binary32: narrow(widen x) = x for every non-NaN x; fixed point: C05), short data rejected. Correspondence: 25 types x 4 precisions x 4 coordinate codes x data patterns x every shorter length.",
+    "level_note": "Trusted: Coq kernel; translator (layouts); Flocq as the IEEE-754 semantics; hand-written field codec model (validated by correspondence); protocol layout table; harness. Axioms: the standard-library real-number axioms and classic/functional extensionality that Flocq's correctness theorems depend on (listed in the evidence).",
+    "technique": "Rocq proof (induction over generated layouts, Flocq for IEEE-754) + translator-generated layouts + differential correspondence",
+    "props_file": "Props/C04.v",
+    "tie_files": ["Tie/LayoutsAgree.v"],
+    "eval_modules": ["Run.EvalCodec"],
+    "imports": ["XS.Run.EvalConfig"],
+    "kinds": {
+        "codec": {"type": "case_codec", "chk": "chk_codec", "sig": "sig_codec", "scope": "N_scope"},
+        "enc": {"type": "case_enc", "chk": "chk_enc", "sig": "sig_enc", "scope": "N_scope"},
+    },
+    "rule": "codec: for each of the 25 supported types x 4 precisions x 4 coordinate codes: data of the specified size in six patterns (all-00, all-ff, distinct bytes 01 02 03 .., sign-boundary lanes, plausible reals, random), every shorter length (sampled for the 94-byte record), longer data, reserved identifier bits; observable = decoded value (integers / float64 bit patterns), the packet obtained by re-encoding it, and whether an error left a pre-filled destination unchanged. enc: arbitrary values (reals of every magnitude incl. 0, -0, subnormal, max, inf, NaN; random integers) encoded at every precision. float32 NaN payloads are skipped (excepted by the property). non-trivial = every case (distinct precision/type/outcome signature); distinct = distinct case terms",
+    "trusted": CODEC_TRUSTED,
+    "assumptions": ["packets are header-complete (DESIGN 10.2)", "float-to-unsigned conversion of out-of-range values is outside the property"],
+}
+PROPS["C05"] = {
+    "level_text": "Theorems (Props/C05.v) over the reals via Flocq, for every bit pattern (no enumeration): the float64 obtained from a 12.20 (16.32) field is exactly its two's-complement 32-bit (48-bit, fraction word first) integer divided by 2^20 (2^32) - float64(int) exact, division by a power of two exact; hence strictly monotone; re-encoding gives the same pattern; encoding an in-range float and decoding it again differs by less than one unit of resolution. Correspondence: boundary-biased and random patterns and floats against FP1220/FP1632.",
+    "level_note": "Trusted: Coq kernel; Flocq as the IEEE-754 semantics; amd64 float-to-unsigned conversion; hand-written model of fixedpoint.go (validated by correspondence); harness. Axioms: standard-library real-number axioms, classic, functional extensionality (via Flocq/Reals).",
+    "technique": "Rocq proof over the reals (Flocq) of a Gallina model performing the same IEEE operations + differential correspondence",
+    "props_file": "Props/C05.v",
+    "eval_modules": ["Run.EvalCodec"],
+    "kinds": {
+        "fp": {"type": "case_fp", "chk": "chk_fp", "sig": "sig_fp", "scope": "N_scope"},
+        "fpenc": {"type": "case_fpenc", "chk": "chk_fpenc", "sig": "sig_fpenc", "scope": "N_scope"},
+    },
+    "rule": "fp: patterns -> Float64() bits and FromFloat64(Float64()) bytes: every combination of edge bytes {00,01,7f,80,81,fe,ff} in each lane, all 256 high bytes of the integer word, random patterns (thorough: every third of the 65536 integer words). fpenc: in-range floats (boundaries: 0, -0, +-1 unit, half units, the range limits; exactly representable; small magnitudes; uniform) -> FromFloat64 bytes and their Float64(). non-trivial = every case; distinct = distinct case terms",
+    "trusted": CODEC_TRUSTED,
+    "assumptions": ["platform: amd64 (DESIGN 10.5)"],
+}
